@@ -164,6 +164,27 @@ CLAIMS["C17"] = dict(
               "over symbolic bytes; aliasing via shared-storage shim)",
     ref="3/C17")
 
+CLAIMS["C10"] = dict(
+    text="The real bodies of the six CLI tasks and setup_task_paths (shadow "
+         "modules) run over a file-system model in which every effectful "
+         "operation (unlink, rename, open, write/group/attribute creation, "
+         "copy, close) is a numbered fault point and the fault index is a "
+         "symbolic integer: for every feasible fault position and both fault "
+         "kinds (OSError / kill before the operation) the engine checks that "
+         "each requested output path is absent or complete and that inputs "
+         "are never unlinked, renamed over, truncated, written or opened "
+         "writable (also when the output path aliases an input).",
+    note="Trusted: symx, the file-system model and the recording stubs for "
+         "h5py.File, RTDCWriter, new_dataset/export, rtdc_copy (each performs "
+         "a fixed number of numbered writes on the handle it was given; "
+         "RTDCWriter.__exit__ = 2 writes + close). Counterexamples are "
+         "replayed on real files with faults injected into h5py/pathlib in a "
+         "forked child.",
+    technique="symbolic execution of the real task bodies over a file-system "
+              "model with a symbolic fault index (solver-enumerated crash "
+              "points)",
+    ref="3/C10")
+
 NOT_APPLICABLE = {
 }
 
